@@ -12,7 +12,7 @@ LEVEL = 'exploration'
 RULE = (
     'cases: random non-negative density grids (2-8 voxels per axis, unequal axes) with integer counts, float '
     'densities, heavy-tailed counts up to 1e9, 0-95 % unvisited voxels, down to a single visited voxel (p = 1); '
-    'temperatures log-uniform in [1e-3, 1e4] K; default and explicit graph thresholds; half of the volumes come '
+    'temperatures log-uniform in [1e-3, 1e6] K (kT from 1e-7 to 86 eV); default and explicit graph thresholds; half of the volumes come '
     'from the real trajectory_to_volume.  Oracle: direct formulas with the exact SI value of k_B in eV/K, all '
     'voxel pairs for monotonicity (via sorting).  Non-trivial = at least 2 visited and 1 unvisited voxel; distinct '
     '= SHA-1 of (grid, temperature).'
@@ -72,7 +72,7 @@ def run_unit(unit, rng, ctx):
             if not data.any():
                 data[tuple(int(rng.integers(s)) for s in shape)] = 1
         vol = Volume(data=data, lattice=Lattice(m))
-    temp = float(np.exp(rng.uniform(np.log(1e-3), np.log(1e4))))
+    temp = float(np.exp(rng.uniform(np.log(1e-3), np.log(1e6))))
     what = f'grid {data.shape} mode={mode} T={temp:.4g} K'
     wit = {'data': data, 'temperature': temp}
     F = vol.get_free_energy(temperature=temp)
